@@ -1,5 +1,6 @@
 import ConjureVerif.Lemmas.Call
 import ConjureVerif.Lemmas.Emit
+import ConjureVerif.Lemmas.EmitUri
 import ConjureVerif.Gen.CodegenClientsSrc
 import ConjureVerif.Gen.CodegenServersSrc
 import ConjureVerif.Gen.CodegenHttpPathsSrc
@@ -580,6 +581,61 @@ theorem C04_emit_auth_agree (defs : Defs) (f : Nat) (kw : List String) (e : Endp
   · intro h; simp [clientCalls, headerCalls, serverAttrs, h]
   · intro n h; simp [clientCalls, headerCalls, serverAttrs, h]
 
+
+
+/-! #### the generated code and the request model (Lemmas/EmitUri.lean) -/
+open ConjureVerif.EmitUri in
+/-- **the generated client sends the model's request**: performed with the arguments' PLAIN texts (`txt`, by Rust
+identifier) and the token `tok`, the `UriBuilder` calls and the header-writing calls of the generated client method
+produce exactly the URI bytes and the header list (or the refusal) that `Call.uriBytes` / `Call.clientHeaders` assign
+to the template and to the argument list `authCargs ++ args.map cargOf` — for every definition whose template
+parameters each name a path argument -/
+theorem C04_generated_request (tbl : List Nat) (defs : Defs) (f : Nat) (ty : Arg → Endpoint.PTy) (safe : Arg → Bool)
+    (kw : List String) (txt : String → List Emit.Bytes) (tok : Emit.Bytes) (e : Emit.Endpoint)
+    (hp : ∀ n, Seg.param n ∈ parsePath e.path → (e.args.find? (fun a => a.kind == .path && a.name == n)).isSome = true) :
+    Uri.buildBuf tbl ((clientCalls defs f kw e).flatMap (pushesOf tbl txt)) =
+      Call.uriBytes tbl (tmplOf e) (authCargs e.auth tok ++ e.args.map (cargOf defs f ty safe kw txt)) ∧
+    headersOf txt tok (clientCalls defs f kw e) =
+      Call.clientHeaders (authCargs e.auth tok ++ e.args.map (cargOf defs f ty safe kw txt)) :=
+  emit_request tbl defs f ty safe kw txt tok e hp
+
+open ConjureVerif.EmitUri in
+/-- **the generated server trait describes each argument as that model does**: kind, decoder cardinality, wire name,
+reported name, identifier — so the handler `#[conjure_endpoints]` expands to works from the same descriptors -/
+theorem C04_generated_specs (defs : Defs) (f : Nat) (ty : Arg → Endpoint.PTy) (safe : Arg → Bool) (kw : List String)
+    (txt : String → List Emit.Bytes) (a : Arg) :
+    specOfAttr (ty a) (safe a) (serverArg defs f kw a) = some (cargOf defs f ty safe kw txt a).spec :=
+  spec_of_serverArg defs f ty safe kw txt a
+
+open ConjureVerif.EmitUri in
+/-- hence `C04_handler_runs` at the argument list both halves were generated from: a call of the generated client
+whose supplied values are decodable reaches the handler of the generated server -/
+theorem C04_generated_handler_runs (defs : Defs) (f : Nat) (ty : Arg → Endpoint.PTy) (safe : Arg → Bool) (kw : List String)
+    (txt : String → List Emit.Bytes) (tok : Emit.Bytes) (e : Emit.Endpoint)
+    (args : List Call.CArg) (hargs : args = authCargs e.auth tok ++ e.args.map (cargOf defs f ty safe kw txt))
+    (wf : Call.CallWF (tmplOf e) args) (d : C04.Distinct args)
+    (hpaths : ∀ a ∈ args, a.spec.kind = .path → Call.TSeg.param a.spec.name ∈ tmplOf e)
+    (hauth : ∀ a ∈ args, a.spec.kind = .auth → C04.ofKind .auth args = [a])
+    (hcookie : ∀ a ∈ args, a.spec.kind = .cookie → C04.ofKind .cookie args = [a])
+    (ct : Endpoint.CtClass) (pl : Endpoint.Payload) (dbl : List (Endpoint.Bytes × Bool)) (r : Endpoint.Request)
+    (hr : Call.serverRequest Gen.Uri.component (tmplOf e) args ct pl dbl = some r)
+    (hs : ∀ i a, args[i]? = some a → C04.Supplied (fun t => (dbl.lookup t).getD false) ct pl i a) :
+    (Endpoint.handleReq (args.map (·.spec)) r).error = none :=
+  C04.C04_handler_runs (tmplOf e) args wf d hpaths hauth hcookie ct pl dbl r hr hs
+
+/-- non-vacuity of `C04_generated_request`'s hypothesis, and the request it yields: `GET /a/{p}?q=…` -/
+def exEndpoint : Emit.Endpoint :=
+  { method := [71, 69, 84], path := [47, 97, 47, 123, 112, 125], name := [103], auth := .header, context := false, returns := none,
+    args := [{ name := [112], snake := "p", kind := .path, ty := .prim false }, { name := [113], snake := "q", kind := .query [113], ty := .list (.prim false) }] }
+example : ∀ n, Seg.param n ∈ parsePath exEndpoint.path →
+    (exEndpoint.args.find? (fun a => a.kind == .path && a.name == n)).isSome = true := by
+  intro n hn
+  have hp : parsePath exEndpoint.path = [.lit [97], .param [112]] := by decide
+  rw [hp] at hn
+  simp only [List.mem_cons, List.not_mem_nil, or_false, reduceCtorEq, false_or, Seg.param.injEq] at hn
+  subst hn; decide
+example : Uri.buildBuf [37, 47] ((clientCalls [] 4 [] exEndpoint).flatMap (EmitUri.pushesOf [37, 47] (fun _ => [[120, 47], [50]]))) =
+    [47, 97, 47, 120, 37, 50, 70, 63, 113, 61, 120, 37, 50, 70, 38, 113, 61, 50] := by decide
 
 /-- non-vacuity: an alias of an alias of `optional<string>` as a query argument, an alias of `list<integer>` as the
 return type -/
